@@ -479,8 +479,9 @@ pub(crate) mod xr10 {
     #[inline(always)]
     pub fn f32(x: u16) -> f32 {
         // 0x180 == 1.5 in 2.8 fixed-point.
-        const F: f32 = 1.0 / 510.0;
-        (x as i16 - 0x180) as f32 * F
+        // a division is correctly rounded; multiplying with the rounded
+        // reciprocal is off by 1 ULP for many values
+        (x as i16 - 0x180) as f32 / 510.0
     }
 
     #[inline(always)]
